@@ -230,6 +230,8 @@ def eval_case(case):
             nver = rng.randint(0, 2)
             order = list(shape_tips)
             rng.shuffle(order)
+            if rng.random() < 0.5:
+                order = order[:1]   # versions on ONE side of the merge only (first- or second-parent side)
             seq = order * rng.choice([1, 2, 2])          # X@A, Y@B, Z@A, ...
             if rng.random() < 0.5:
                 seq = seq[:3]
